@@ -3,6 +3,7 @@ package linter
 import (
 	"fmt"
 	"strings"
+	"sync"
 
 	"github.com/pkg/errors"
 	"github.com/ysugimoto/falco/v2/ast"
@@ -16,6 +17,8 @@ import (
 )
 
 type Linter struct {
+	// guards Errors: custom linter plugins report from their own goroutines
+	mu         sync.Mutex
 	Errors     []*LintError
 	FatalError *FatalError
 	lexers     map[string]*lexer.Lexer
@@ -43,6 +46,9 @@ func (l *Linter) Lexers() map[string]*lexer.Lexer {
 }
 
 func (l *Linter) Error(err error) {
+	l.mu.Lock()
+	defer l.mu.Unlock()
+
 	if le, ok := err.(*LintError); ok {
 		if !l.ignore.IsEnable(le.Rule) {
 			l.Errors = append(l.Errors, le)
